@@ -1324,3 +1324,42 @@ C10 = [eng1, eng2, eng34, yf1, cont3]
 C11 = [ctx_rules, ctx5]
 C13 = [opt1, opt2, opt3, opt4, opt56, opt7, ctx_rules]
 C16 = [ori_rules]
+
+
+def sig1(ctx: Ctx) -> None:
+    """SIG-1 every function registered for a hook takes the number of positional arguments the engine calls that hook with
+    (unwrap_stackitem: 1; elaborate_frame / elaborate_context / unwrap_context / unwrap_context_generator: 2), and every call of
+    a hook inside the package passes that many"""
+    want = {"unwrap_stackitem": 1, "elaborate_frame": 2, "elaborate_context": 2, "unwrap_context": 2, "unwrap_context_generator": 2}
+    n = 0
+    for mod in ctx.P.analysed_mods():
+        for q, fn in mod.defs.items():
+            if not isinstance(fn, (ast.FunctionDef, ast.AsyncFunctionDef)):
+                continue
+            for d in fn.decorator_list:
+                if isinstance(d, ast.Call) and isinstance(d.func, ast.Attribute) and d.func.attr == "register" and norm(d.func.value) in want:
+                    hook = norm(d.func.value)
+                    n += 1
+                    a = fn.args
+                    npos = len(a.posonlyargs) + len(a.args)
+                    nreq = npos - len(a.defaults)
+                    if a.vararg is None and not (nreq <= want[hook] <= npos):
+                        ctx.R.fail("SIG-1", mod, fn, f"`{q}` is registered for {hook}, which the engine calls with {want[hook]} positional argument(s), but it takes {nreq}..{npos}: "
+                                   "every extraction that reaches it fails with TypeError (recorded in Stack.error, the hook never runs)", construct=f"{q} registered for {hook} with {npos} parameter(s)")
+                    else:
+                        ctx.R.ok("SIG-1", f"{mod.name}.{q} registered for {hook}: {npos} parameter(s)")
+        for c in ast.walk(mod.tree):
+            if isinstance(c, ast.Call) and isinstance(c.func, ast.Name) and c.func.id in want and not c.keywords:
+                cal = ctx.P.resolve_call(mod, c)
+                if cal.kind == "pkg" and cal.name.endswith("_customization." + c.func.id) and not any(isinstance(x, ast.Starred) for x in c.args):
+                    n += 1
+                    if len(c.args) == want[c.func.id]:
+                        ctx.R.ok("SIG-1", f"{mod.name}.{mod.qualname_of(c)}: {norm(c)[:60]}")
+                    else:
+                        ctx.R.fail("SIG-1", mod, c, f"{c.func.id} is called with {len(c.args)} argument(s); hooks registered for it take {want[c.func.id]}", construct=f"call {norm(c)[:80]}")
+    if n < 25:
+        raise AnalysisError(f"SIG-1: only {n} hook registrations / calls found (>= 25 confirmed by hand)")
+
+
+C10 = C10 + [sig1]
+C11 = C11 + [sig1]
